@@ -30,9 +30,22 @@ def c4(ctx):
     records.cmp_rule(ctx, "simfile.notes.Note", ("player", "beat", "column"))
 
 
+def sweep(ctx):
+    """thorough: every construction of a note record and every enum comparison in the package is a judged site or recorded."""
+    records.rebuild_census(ctx, {("simfile.notes:NoteData._iter_measure", "simfile.notes.Note"): 1, ("simfile.notes.group:group_notes.attach_tail", "simfile.notes.group.NoteWithTail"): 1,
+                                 ("simfile.notes.group:ungroup_notes", "simfile.notes.Note"): 2, ("simfile.notes.timed:time_notes", "simfile.notes.Note"): 1,
+                                 ("simfile.notes.timed:time_notes", "simfile.notes.timed.TimedNote"): 2})
+    records.enum_census(ctx, {("simfile.notes.group:group_notes.join_head_to_tail", "orphaned_tail"), ("simfile.notes.group:group_notes.join_head_to_tail", "orphaned_head"),
+                                ("simfile.notes.group:group_notes.add_row", "same_beat_notes"), ("simfile.notes.group:ungroup_notes.check_orphan", "orphaned_notes"),
+                                ("simfile.notes.timed:time_notes", "unhittable_notes"), ("simfile.convert:_should_copy_property", "behavior")})
+
+
+sweep.thorough_only = True
+
 CLAUSES = [
     ("C10.1", "rebuilt notes carry every field (R-REBUILD)", c1),
     ("C10.2", "no tail is lost; tails released in order (R-ORDER)", c2),
     ("C10.3", "orphan policy dispatch is total (R-ENUM)", c3),
     ("C10.4", "the heap order is the note position order (R-CMP, shared with C07)", c4),
+    ("C10.sweep", "package-wide census of record constructions and enum dispatches (thorough)", sweep),
 ]
